@@ -233,9 +233,9 @@ func coqMat(loc int, h []int) string {
 	if h[6] == 1 {
 		t = "true"
 	}
-	return fmt.Sprintf("(mkDense %d %s %s %s %s %s %s %s)", loc, ZI(h[0]), ZI(h[1]), ZI(h[2]), ZI(h[3]), ZI(h[4]), ZI(h[5]), t)
+	return fmt.Sprintf("(mkDense %d%%nat %s %s %s %s %s %s %s)", loc, ZI(h[0]), ZI(h[1]), ZI(h[2]), ZI(h[3]), ZI(h[4]), ZI(h[5]), t)
 }
-func coqVec(v VView) string { return fmt.Sprintf("(mkVec %d %s %s)", v.Parent, ZI(v.Off), ZI(v.Len)) }
+func coqVec(v VView) string { return fmt.Sprintf("(mkVec %d%%nat %s %s)", v.Parent, ZI(v.Off), ZI(v.Len)) }
 func coqHeap(h [][]float64) string {
 	rows := make([]string, len(h))
 	for i, s := range h {
